@@ -266,6 +266,10 @@ func (s *Stats) Observe(c *Case, st *Step, r *Result) {
 			nontrivial = true
 			key.WriteString("slow")
 		}
+		if j.StmtPreempts > 0 {
+			s.FaultFired["sched-preemption-between-statements"]++
+			nontrivial = true
+		}
 		if j.DelayedWrites > 0 {
 			s.FaultFired["F15:slow-destination(write delayed in simulated time)"]++
 			nontrivial = true
